@@ -84,18 +84,36 @@ func showOptIdx(i int, err error) string {
 // storeObs is the API-level observation of a store (what `sobs` prints).
 func (r *Runner) storeObs(e *storeEntry) string {
 	s := e.s
-	total := ratOf(s.TotalCount())
+	var total *big.Rat
 	empty := 0
-	if s.IsEmpty() {
-		empty = 1
+	var mn, mx int
+	var errMin, errMax error
+	var fe, ch []binRat
+	// observers in a different order each time (printed in a fixed one), see sketchObs
+	obs := []func(){
+		func() { total = ratOf(s.TotalCount()) },
+		func() {
+			if s.IsEmpty() {
+				empty = 1
+			}
+		},
+		func() { mn, errMin = s.MinIndex() },
+		func() { mx, errMax = s.MaxIndex() },
+		func() { fe = collectForEach(s) },
+		func() { ch = collectBinsChan(s) },
 	}
-	mn, errMin := s.MinIndex()
-	mx, errMax := s.MaxIndex()
-	fe := collectForEach(s)
+	r.obsMode++
+	k := r.obsMode % len(obs)
+	for i := range obs {
+		if (r.obsMode/len(obs))%2 == 0 {
+			obs[(k+i)%len(obs)]()
+		} else {
+			obs[(k+len(obs)-i)%len(obs)]()
+		}
+	}
 	if e.kind == "sparse" {
 		sortBins(fe) // Go map order is unspecified
 	}
-	ch := collectBinsChan(s)
 	line := fmt.Sprintf("total=%s empty=%d min=%s max=%s bins=%s", showRat(total), empty,
 		showOptIdx(mn, errMin), showOptIdx(mx, errMax), showBinsRat(fe))
 	if !sameBins(fe, ch) {
